@@ -3,7 +3,7 @@
 cd /verif; mkdir -p build/seedlogs
 for id in "$@"; do
   [ -f /tmp/seed_out/$id/patch.diff ] || { echo "$id no patch" >> build/seed_verify.log; continue; }
-  tools/seed_verify.py $id > build/seedlogs/$id.json 2>&1
+  tools/seed_verify.py $id $SEED_ARGS > build/seedlogs/$id.json 2>&1
   echo "$id $(python3 -c "
 import json
 try:
